@@ -797,4 +797,11 @@ theorem refEval_wire {A} (cmp : Op → A → A → Bool) (names : List Name) (rc
         split <;> simp [bind, Except.bind, pure, Except.pure, ht]
 
 
+/-- the constraint of the URL given to `open_url` is one the theorem speaks about: its selection tokens
+    read as the clauses `rcs0` of the sequence, its columns (if any) are distinct columns of the sequence -/
+def UrlOk {A} (lit : List Char → Option A) (id : Name) (names : List Name) (u : UrlCE) (rcs0 : List (RCond A)) : Prop :=
+  SelOk lit id names u.sel rcs0 ∧
+    ∀ cols r, u.proj = some (some cols, r) → cols ≠ [] ∧ cols.Nodup ∧ ∀ k ∈ cols, k ∈ names
+
+
 end Pydap.SeqClient
